@@ -86,6 +86,12 @@ def tree_jobs(seed, shards, depth, events):
             for i in range(shards)]
 
 
+def allmoves_jobs(seed, shards, events, max_events=0):
+    return [{"name": "allmoves%d" % i,
+             "args": ["-mode", "allmoves", "-seed", seed, "-shard", i, "-shards", shards, "-events", events,
+                      "-max-events", max_events]} for i in range(shards)]
+
+
 def mode_jobs(mode, seed, shards, n, plies, events, max_events=0):
     return [{"name": "%s%d" % (mode, i),
              "args": ["-mode", mode, "-seed", seed * 1000 + 500 + i, "-n", n, "-plies", plies, "-events", events,
@@ -166,12 +172,12 @@ def c07(work, tier, seed):
     mc_chess(work, rep, tier, ["ZobristInv"])
     if tier == "quick":
         jobs = (play_jobs(seed, 8, 8, 80, "board", 600) + mode_jobs("prog", seed, 4, 6, 120, "board", 600)
-                + mode_jobs("dance", seed, 4, 6, 0, "board", 600))
+                + mode_jobs("dance", seed, 4, 6, 0, "board", 600) + allmoves_jobs(seed, 8, "board"))
     else:
         jobs = (play_jobs(seed, 16, 300, 150, "board", 12000) + mode_jobs("prog", seed, 8, 200, 200, "board", 12000)
-                + mode_jobs("dance", seed, 8, 200, 0, "board", 12000))
+                + mode_jobs("dance", seed, 8, 200, 0, "board", 12000) + allmoves_jobs(seed, 16, "board"))
     board_traces(work, vh, rep, ["C07"], jobs)
-    require(rep, ["push:KingSideCastle", "push:QueenSideCastle", "push:EnPassant", "push:Promotion",
+    require(rep, ["push:KingSideCastle", "push:QueenSideCastle", "push:EnPassant", "push:Promotion", "push:CapturePromotion",
                   "push:Capture", "push:Jump", "pop", "fork"], "C07")
     rep.assumptions = ["hashes are compared as opaque tokens; a 2^-64 coincidence between different positions would be reported as c07.collision",
                        "every game uses its own Zobrist table seed"]
@@ -184,9 +190,11 @@ def c08(work, tier, seed):
     vh = vlib.build_harness(work)
     mc_board(work, rep, tier)
     if tier == "quick":
-        jobs = (mode_jobs("prog", seed, 10, 6, 150, "board", 800) + mode_jobs("dance", seed, 4, 6, 0, "board", 600))
+        jobs = (mode_jobs("prog", seed, 10, 6, 150, "board", 800) + mode_jobs("dance", seed, 4, 6, 0, "board", 600)
+                + allmoves_jobs(seed, 6, "board"))
     else:
-        jobs = (mode_jobs("prog", seed, 16, 300, 300, "board", 15000) + mode_jobs("dance", seed, 8, 200, 0, "board", 12000))
+        jobs = (mode_jobs("prog", seed, 16, 300, 300, "board", 15000) + mode_jobs("dance", seed, 8, 200, 0, "board", 12000)
+                + allmoves_jobs(seed, 16, "board"))
     board_traces(work, vh, rep, ["C08"], jobs)
     require(rep, ["pop", "fork", "push-refused", "push:KingSideCastle", "push:Capture"], "C08")
     rep.assumptions = ["take-backs below the fork point of a live fork are outside the contract and never generated",
@@ -235,7 +243,7 @@ def mc_board(work, rep, tier):
     # first had are rejected by the same model
     base = {"MaxOps": 6 if quick else 8, "NBoards": 2, "WalkInclusive": "TRUE", "CastleResets": "FALSE", "NPLimit": 7}
     cfg = vlib.cfg_text(constants=base, invariants=["Refines", "DrawRefines", "RepsExact"])
-    r = vlib.tlc(work, "BoardImpl", cfg, workers=vlib.NCPU, timeout=3300, heap="12g")
+    r = vlib.tlc(work, "BoardImpl", cfg, workers=vlib.NCPU, timeout=3300, heap="6g" if quick else "12g")
     vlib.need_tlc_ok(r, "BoardImpl")
     rep.add_tlc(r)
     rej = []
@@ -375,7 +383,7 @@ def mc_search(work, rep, tier, invariants, shift=True):
         consts = dict(consts)
         consts["ShiftWindow"] = "TRUE" if shift else "FALSE"
         cfg = vlib.cfg_text(constants=consts, invariants=invariants)
-        r = vlib.tlc(work, "MCSearch", cfg, workers=vlib.NCPU, timeout=3300, heap="12g", name="MCSearch-" + name,
+        r = vlib.tlc(work, "MCSearch", cfg, workers=vlib.NCPU, timeout=3300, heap="6g" if quick else "12g", name="MCSearch-" + name,
                      extra=["-maxSetSize", "4000000"])
         vlib.need_tlc_ok(r, "MCSearch " + name)
         rep.add_tlc(r)
@@ -566,7 +574,7 @@ def c17(work, tier, seed):
     consts = {"Procs": "{1, 2}" if quick else "{1, 2, 3}", "NSlots": 2, "Hashes": "{0, 1, 2}", "Vals": "{1, 2}",
               "WritesPerProc": 2, "AtomicUsed": "TRUE"}
     cfg = vlib.cfg_text(constants=consts, invariants=["SlotIntegrity", "ReplacementOrder", "UsedInRange", "UsedExact", "UsedTracks"])
-    r = vlib.tlc(work, "TT", cfg, workers=vlib.NCPU, timeout=3000, heap="12g")
+    r = vlib.tlc(work, "TT", cfg, workers=vlib.NCPU, timeout=3000, heap="6g" if quick else "12g")
     vlib.need_tlc_ok(r, "TT")
     rep.add_tlc(r)
     rep.extra["mc_tt"] = {"states": r.distinct, "constants": consts, "wall_s": round(r.wall, 1)}
@@ -771,14 +779,14 @@ def mc_uci(work, rep, tier, liveness):
     quick = tier == "quick"
     base = {"MaxCmds": 3 if quick else 4, "NS": 2, "MaxDepth": 2, "IdGuard": "TRUE", "StopOnOk": "TRUE", "ShutdownWaits": "TRUE", "TimerInLoop": "TRUE"}
     cfg = vlib.cfg_text(spec="Spec", constants=base, invariants=UCI_INV, view="View")
-    r = vlib.tlc(work, "Uci", cfg, workers=vlib.NCPU, timeout=3300, heap="16g", name="Uci-safety")
+    r = vlib.tlc(work, "Uci", cfg, workers=vlib.NCPU, timeout=3300, heap="6g" if quick else "16g", name="Uci-safety")
     vlib.need_tlc_ok(r, "Uci safety")
     rep.add_tlc(r)
     info = {"safety": {"states": r.distinct, "constants": base, "wall_s": round(r.wall, 1)}}
     if liveness:
         lb = dict(base, MaxCmds=2 if quick else 3)
         cfg = vlib.cfg_text(spec="FairSpec", constants=lb, properties=["Answered", "StopAnswered", "LoopReturns"], view="View")
-        r = vlib.tlc(work, "Uci", cfg, workers=vlib.NCPU, timeout=3300, heap="16g", name="Uci-liveness")
+        r = vlib.tlc(work, "Uci", cfg, workers=vlib.NCPU, timeout=3300, heap="6g" if quick else "16g", name="Uci-liveness")
         vlib.need_tlc_ok(r, "Uci liveness")
         rep.add_tlc(r)
         info["liveness"] = {"states": r.distinct, "constants": lb, "wall_s": round(r.wall, 1)}
